@@ -92,7 +92,7 @@ def main():
         "setup_cmd": "./check.sh build",
         "hooks": {
             "guard": "verif (Go build tag)",
-            "enable": "go build -tags verif -overlay /verif/hooks/overlay.json: adds src/analyzer/zz_verif_reset.go (VerifResetConfig) to the build without touching /repo; every check.sh invocation rebuilds the harness against /repo's working tree this way",
+            "enable": "check.sh builds the harness with `go build -tags verif -overlay <generated overlay.json>`; the overlay adds /verif/hooks/analyzer/zz_verif_reset.go (func VerifResetConfig, build tag verif) to package src/analyzer without writing anything into /repo; every check.sh invocation rebuilds against /repo's working tree this way. Only C08 calls the hook.",
             "baseline_off_cmd": "cd /repo && GOFLAGS=-mod=mod GOPROXY=off go test -json -vet=off -count=1 -timeout 25m ./...",
             "source_commits": [],
             "add_only": True,
